@@ -408,7 +408,7 @@ BookDecision(res, dm, dthr) ==
             IF x.k = "rat" THEN (IF Decreasing(dm) THEN Leq(x.v, dthr) ELSE Leq(dthr, x.v))
             ELSE IF x.k = "milli" THEN (x.v[1] - 1) * dthr[2] <= 1000 * dthr[1]     \* decreasing (ASSD), one unit of slack
             ELSE FALSE
-PqMetrics == {"IOU", "DSC"}
+PqMetrics == {"IOU", "DSC", "clDSC"}
 BookPq(res, im) ==
     \A m \in im \cap PqMetrics :
         (res.sq[m].k # "skip" /\ res.pq[m].k # "skip") => res.pq[m] = Product(res.sq[m], res.rq)
